@@ -40,13 +40,16 @@ var c41Table = []c41Host{
 	{"okok.test", []string{"ok", "ok"}, []string{"127.0.0.1", "127.0.0.4"}, "ok"},
 	{"rerr.test", []string{"ok"}, []string{"127.0.0.1"}, "error"},
 	{"rhang.test", []string{"ok"}, []string{"127.0.0.1"}, "hang"},
+	// the resolver answers the first lookup of this host and hangs on every later one (a
+	// refresh of the expired DNS cache entry)
+	{"flaky.test", []string{"ok"}, []string{"127.0.0.1"}, "flaky"},
 	// literal addresses, dialled with DisableDNSResolution
 	{"127.0.0.1", []string{"ok"}, []string{"127.0.0.1"}, "direct"},
 	{"127.0.0.2", []string{"hang"}, []string{"127.0.0.2"}, "direct"},
 	{"127.0.0.3", []string{"refuse"}, []string{"127.0.0.3"}, "direct"},
 }
 
-const c41FirstDirect = 9 // index of the first literal-address entry of c41Table
+const c41FirstDirect = 10 // index of the first literal-address entry of c41Table
 
 // c41Opts: the TCPDialer options of one execution
 type c41Opts struct {
@@ -57,14 +60,27 @@ type c41Opts struct {
 	nilRes    bool          // unused with the fake network: the Resolver is always the fake one
 }
 
-type c41Resolver struct{}
+type c41Resolver struct {
+	mu    *sync.Mutex
+	calls map[string]int
+}
+
+func c41NewResolver() c41Resolver { return c41Resolver{mu: &sync.Mutex{}, calls: map[string]int{}} }
 
 var errC41Resolve = errors.New("c41: no such host")
 
-func (c41Resolver) LookupIPAddr(ctx context.Context, host string) ([]net.IPAddr, error) {
+func (r c41Resolver) LookupIPAddr(ctx context.Context, host string) ([]net.IPAddr, error) {
+	r.mu.Lock()
+	r.calls[host]++
+	nth := r.calls[host]
+	r.mu.Unlock()
 	for _, h := range c41Table {
 		if h.name != host {
 			continue
+		}
+		if h.resolve == "flaky" && nth > 1 {
+			<-ctx.Done()
+			return nil, ctx.Err()
 		}
 		switch h.resolve {
 		case "error":
@@ -290,7 +306,7 @@ const c41Slack = 1200 * time.Millisecond
 
 func c41RunOne(t *testing.T, nw *c41Net, o c41Opts, jit *rand.Rand, dials []c41Dial, trNo int) (evs []vfRec, key, detail string, infra string) {
 	conc := o.conc
-	d := &TCPDialer{Concurrency: conc, Resolver: c41Resolver{}, DisableDNSResolution: o.direct, DNSCacheDuration: o.cache}
+	d := &TCPDialer{Concurrency: conc, Resolver: c41NewResolver(), DisableDNSResolution: o.direct, DNSCacheDuration: o.cache}
 	if o.localAddr {
 		d.LocalAddr = &net.TCPAddr{IP: net.IPv4(127, 0, 0, 1)}
 	}
@@ -473,6 +489,13 @@ func TestVerifC41Dialer(t *testing.T) {
 						dials[k].delay = 30*time.Millisecond + time.Duration(rng.Intn(3000))*time.Microsecond
 					}
 				}
+			case !o.direct && i == 4:
+				// directed: the DNS cache entry expires (50 ms) and its refresh hangs: the dial
+				// that refreshes ends at its own deadline
+				o.cache = 50 * time.Millisecond
+				dials = []c41Dial{{host: 9, timeout: 300 * time.Millisecond},
+					{host: 9, timeout: 200 * time.Millisecond, delay: 150 * time.Millisecond},
+					{host: 9, timeout: 250 * time.Millisecond, delay: 170 * time.Millisecond}}
 			case !o.direct && i%5 == 1:
 				// directed: a hanging dial holds a slot while others queue for it
 				dials[0] = c41Dial{host: 4, timeout: 400 * time.Millisecond}
